@@ -1,4 +1,5 @@
 SPEC = dict(
+    aux_kinds=['djump '],   # streams that call unexported helpers directly; skipped (UNAVAILABLE) when those are renamed
     harness="verif_c03",
     model="C03",
     rule="malformed-input stream through the real entry points, each under recover(): DeBlobProgramCode (also on slices with spare "
